@@ -21,6 +21,9 @@ the source.  A probe that cannot be driven, or that sees something the model has
                      and what the model assumes besides (every entry is copied - no `ignore=` filter -, a file costs
                      `open` + `chmod` = `shutil.copy`, nothing but mkdir/open/chmod/utime happens)
   probe_symbols()    `NameSelector.get_name` on one-character names over an alphabet: the per-character substitution
+  probe_exclude_output()  the real source search (`parse_arguments` + `find_all_files`) on a project whose output directory
+                     lies below the source directory and holds the copies of an earlier run, under a plain directory
+                     name and under names with `[v2]`, `*`, `?`: excludeOutputByPath
   probe_graph_links()  `FortranGraph.create_svg` on a stub graph (real graphviz) in a directory that holds symbolic
                      links under the two names graphviz writes to: graphSkipsLinks
 """
@@ -414,12 +417,58 @@ def probe_graph_links() -> bool:
         return svg
 
 
+def find_sources(proj: Path, out_raw: str, src_raw: list[str], exclude_dir: list[str] | None = None) -> tuple[list[str], object]:
+    """The real source search (`ProjectSettings` -> `parse_arguments` -> `find_all_files`) for a project directory that
+    exists on disk; returns (sorted file paths, normalised settings).  ValueError of the refusal is passed on."""
+    ford = common.import_ford()
+    import ford.fortran_project as fp
+    from ford.settings import ProjectSettings
+
+    kw = {"src_dir": list(src_raw), "output_dir": out_raw, "preprocess": False, "parallel": 0}
+    if exclude_dir:
+        kw["exclude_dir"] = list(exclude_dir)
+    cwd = os.getcwd()
+    try:
+        with common.quiet():
+            ps = ProjectSettings(**kw)
+            ps, _docs = ford.parse_arguments({}, "", ps, proj)
+            files = fp.find_all_files(ps)
+    finally:
+        os.chdir(cwd)
+    return sorted(str(f) for f in files), ps
+
+
+def probe_exclude_output() -> bool:
+    """excludeOutputByPath: are the files of an earlier run's output directory that lies below a source directory
+    dropped by the source search *whatever the directories are called*?  Control: with plain names they must be dropped
+    (otherwise the exclusion is not what the model describes: LookupError)."""
+    res = {}
+    with common.scratch_dir("ford-c19-probe-") as base:
+        for tag, name in (("plain", "wq"), ("bracket", "wq [v2]"), ("star", "wq*x?")):
+            proj = Path(os.path.realpath(base)) / name / "proj"
+            (proj / "src" / "doc" / "src").mkdir(parents=True)
+            (proj / "src" / "a.f90").write_text("module m\nend module m\n")
+            (proj / "src" / "doc" / "src" / "old.f90").write_text("module shadow\nend module shadow\n")
+            (proj / "src" / "docs").mkdir()
+            (proj / "src" / "docs" / "near.f90").write_text("module near\nend module near\n")
+            files, _ps = find_sources(proj, "./src/doc", ["./src"])
+            rel = sorted(os.path.relpath(f, proj) for f in files)
+            if "src/a.f90" not in rel or "src/docs/near.f90" not in rel or len(rel) > 3:
+                raise LookupError(f"exclusion probe ({tag}): the source search returned {rel} (not modelled)")
+            res[tag] = "src/doc/src/old.f90" not in rel
+    if not res["plain"] or not res["star"]:
+        raise LookupError(f"exclusion probe: the output directory is not excluded from the source search under a plain name / "
+                          f"a name with `*` and `?` ({res}; not modelled)")
+    return res["bracket"]
+
+
 def run_all() -> dict:
     w = probe_writeout()
     kw = probe_copytree()
     return {"wipeWholeTree": w["wipeWholeTree"], "wipeFailureFatal": probe_wipe_failure(), "outDirs": w["outDirs"],
             "libDirs": w["libDirs"], "copytree": kw, "symbolReplacements": probe_symbols(),
-            "graphSkipsLinks": probe_graph_links(), "observed": w["observed"]}
+            "graphSkipsLinks": probe_graph_links(), "excludeOutputByPath": probe_exclude_output(),
+            "observed": w["observed"]}
 
 
 if __name__ == "__main__":
